@@ -319,6 +319,10 @@ def run_prog(app, h, rec):
             app.response.set_cookie(m['n'], m['v'], **cookie_kwargs(m.get('opts')))
         elif m['m'] == 'delcookie':
             app.response.delete_cookie(m['n'], **cookie_kwargs(m.get('opts')))
+        elif m['m'] == 'env':
+            # a hook rewriting the request (strip a prefix, override the verb): Request.__setitem__
+            # (PATH_INFO is already decoded at this point: ombott.py:272)
+            app.request[m['key']] = m['v']
         elif m['m'] == 'del':
             if m.get('via') == 'del':
                 if m['n'] in app.response.headers:
@@ -473,8 +477,14 @@ def build_app(case, rec):
 
 def make_environ(case):
     path = request_path(case)
+    method = case['method']
+    rw = case.get('rewrite')
+    if rw:
+        # the request arrives with another path / verb; the first before_request hook rewrites it to the
+        # one the routes are written for (case['before'][0] carries the env mutations)
+        path, method = rw.get('path', path), rw.get('method', method)
     env = {
-        'REQUEST_METHOD': case['method'], 'PATH_INFO': path.encode('utf8').decode('latin1'), 'QUERY_STRING': '',
+        'REQUEST_METHOD': method, 'PATH_INFO': path.encode('utf8').decode('latin1'), 'QUERY_STRING': '',
         'SERVER_NAME': 'localhost', 'SERVER_PORT': '80', 'SERVER_PROTOCOL': 'HTTP/1.1', 'wsgi.url_scheme': 'http',
         'wsgi.input': io.BytesIO(b''), 'wsgi.errors': io.StringIO(), 'wsgi.version': (1, 0),
         'wsgi.multithread': False, 'wsgi.multiprocess': False, 'wsgi.run_once': False, 'SCRIPT_NAME': '',
@@ -734,7 +744,7 @@ def enc_hdrs(pairs):
     """list of (name, value) appended in order -> the dict HeaderDict.append builds"""
     d = {}
     for n, v in pairs:
-        d.setdefault(n, []).append(v)
+        d.setdefault(n, []).append(str(v))          # _hval: str(value) for int / float / bool / None
     return enc_list(list(d.items()), lambda kv: S(kv[0]) + enc_list(kv[1], S))
 
 
@@ -818,7 +828,7 @@ def enc_muts(ms):
         if m['m'] == 'clear' and m.get('ns') is not None:
             out += [[6] + S(n) for n in m['ns']]
         elif m['m'] == 'update':
-            out += [[1] + S(n) + S(v) for n, v in dict(m['items']).items()]
+            out += [[1] + S(n) + S(str(v)) for n, v in dict(m['items']).items()]
         else:
             out.append(enc_mut(m))
     return [len(out)] + [x for e in out for x in e]
@@ -828,6 +838,10 @@ def enc_mut(m):
     if m['m'] == 'status':
         code, line = status_of(m['v'])
         return [0, code] + S(line)
+    if m['m'] == 'env':
+        return [8, int(m['key'] == 'REQUEST_METHOD')] + S(m['v'])
+    if m['m'] == 'add':
+        return [2] + S(m['n']) + S(str(m['v']))
     if m['m'] == 'del':
         return [6] + S(m['n'])
     if m['m'] == 'clear':
@@ -884,11 +898,11 @@ class SimResp:
         elif k == 'add':
             old = self.h.get(m['n'])
             if old is None:
-                self.h[m['n']] = m['v']
+                self.h[m['n']] = str(m['v'])
             elif isinstance(old, list):
-                old.append(m['v'])
+                old.append(str(m['v']))
             else:
-                self.h[m['n']] = [old, m['v']]
+                self.h[m['n']] = [old, str(m['v'])]
         elif k == 'del':
             self.h.pop(m['n'], None)
         elif k == 'clear':
@@ -898,7 +912,7 @@ class SimResp:
                 for n in m['ns']:
                     self.h.pop(n, None)
         elif k == 'update':
-            self.h.update(dict(m['items']))
+            self.h.update({n: str(v) for n, v in dict(m['items']).items()})
         elif k == 'cookie':
             cookie_morsel(self.jar, m['n'], m['v'], m.get('opts'))
         elif k == 'delcookie':
@@ -1304,6 +1318,16 @@ def oracle(case, obs):
             return 'an after_request hook ran after start_response'
     if len(idx['handler']) > 1:
         return 'handler called %d times' % len(idx['handler'])
+    # routing happens after the before hooks, on the request as they left it
+    if first_fail is None:
+        rt_ = case['routing']
+        reaches = (rt_['k'] == 'ok' and not any(fails(h) for h in rt_['rhooks'])) or \
+            (rt_['k'] == '404' and rt_.get('partial') is not None)
+        if reaches and not idx['handler']:
+            return 'the request%s is routed to a handler, but no handler was called' % (
+                ' (as rewritten by a before_request hook)' if case.get('rewrite') else '')
+        if not reaches and idx['handler'] and rt_['k'] != 'ok':
+            return 'a handler was called although routing has no handler for this request'
     # a crash becomes a 500 (when the application did not install its own 500 handler)
     rt = case['routing']
     crash = (first_fail is not None and crashes(case['before'][first_fail])) or \
@@ -1319,6 +1343,8 @@ def oracle(case, obs):
 
 TEXTS = ['a', 'hello', 'x' * 40, 'é', '€\U0001F600', '<b>&"\'', '\ud800', 'line\nbreak', ' ']
 HVALS = ['v', '1', 'a b', 'é', '€', 'x' * 30, '\ud800', '']
+# values _hval turns into text; equal across types (1 == 1.0 == True, 0 == 0.0 == False): a memoising _hval mixes them up
+TYPED_HVALS = [1, 1.0, True, 0, 0.0, False, None, 2, 2.0, -1, 1e3]
 CTYPES = ['text/plain', 'text/plain; charset=latin1', 'text/html; charset=UTF-8', 'text/plain; charset=ascii',
           'text/plain; charset=bogus-xyz', 'application/json', 'text/plain;charset=Latin-1;x=y',
           'x; charset=utf8; charset= iso-8859-1 ', 'text/plain; charset=', 'charset=']
@@ -1357,6 +1383,8 @@ def g_header(rng):
         v = rng.choice(CTYPES)
     elif n == 'Content-Length':
         v = str(rng.choice([0, 3, 5, 1000]))
+    elif rng.random() < 0.12:
+        v = rng.choice(TYPED_HVALS)
     else:
         v = rng.choice(HVALS) if rng.random() > 0.03 else '\ud800'
     return [n, v]
@@ -1462,7 +1490,9 @@ def g_extra_mut(rng, c):
     if r < 0.26:
         return dict(m='clear', ns=rng.sample(HNAMES, rng.choice([1, 2])))
     if r < 0.36:
-        return dict(m='update', items=[g_header(rng) for _ in range(rng.choice([1, 2]))])
+        # HeaderDict.update stores the values as they are (no _hval): only str values are well-defined
+        return dict(m='update', items=[[n, v if isinstance(v, str) else str(v)]
+                                       for n, v in (g_header(rng) for _ in range(rng.choice([1, 2])))])
     if r < 0.48:
         n, v = rng.choice([('Content-Type', rng.choice(CTYPES)), ('Content-Length', rng.choice([0, 3, 7])),
                            ('Expires', rng.choice([0, 86400, 1700000000]))])
@@ -1576,6 +1606,26 @@ def g_case(rng, edits=True):
                 before=[g_hook(c) for _ in range(rng.choice([0, 0, 1, 2, 3]))],
                 after=[g_hook(c) for _ in range(rng.choice([0, 0, 1, 2, 3]))],
                 routing=routing, eh=eh)
+    if edits and rng.random() < 0.08:
+        # a before_request hook rewrites where the request goes (prefix stripping, method override)
+        rw, muts = {}, []
+        if rng.random() < 0.8:
+            rw['path'] = rng.choice(['/v1', '/en', '/zz/elsewhere']) + request_path(case) if rng.random() < 0.7 else '/other'
+            muts.append(dict(m='env', key='PATH_INFO', v=request_path(case)))
+        if rng.random() < 0.5 and method != 'HEAD':
+            rw['method'] = rng.choice([v for v in VERBS if v != method])
+            muts.append(dict(m='env', key='REQUEST_METHOD', v=method))
+        if muts:
+            k = rng.randrange(0, len(case['before']) + 1)
+            hook = dict(muts=muts, res=dict(k='ret', o=dict(k='falsy', v='none')))
+            if case['before'] and rng.random() < 0.5:
+                k = min(k, len(case['before']) - 1)
+                case['before'][k] = dict(case['before'][k], muts=muts + case['before'][k]['muts'])
+            else:
+                case['before'].insert(k, hook)
+            # the rewrite only happens if every earlier before hook returns
+            if not any(fails(h) for h in case['before'][:k]):
+                extra['rewrite'] = rw
     fatal = extra.pop('_fatal', None)
     case.update(extra)
     if fatal is not None:
@@ -1819,6 +1869,26 @@ def corpus():
     for js in (False, True):
         cs.append(dict(ret(hello, json=js, routing=prog(dict(k='raise_exc', badrepr=True))),
                        cfg=dict(via='ctor', catchall=True, debug=True)))
+    # a before_request hook rewrites PATH_INFO / REQUEST_METHOD: routing must see the rewritten request
+    # (seeded change: _handle routes with the path captured before the hooks ran)
+    def rw_hook(path=None, method=None):
+        muts = ([dict(m='env', key='PATH_INFO', v=path)] if path else []) + \
+            ([dict(m='env', key='REQUEST_METHOD', v=method)] if method else [])
+        return dict(muts=muts, res=dict(k='ret', o=dict(k='falsy', v='none')))
+    for rt in (prog(dict(k='ret', o=hello)), dict(k='404', partial=None), dict(k='405'),
+               dict(k='404', partial=dict(muts=[], res=dict(k='ret', o=hello)))):
+        base = ret(hello, routing=rt)
+        cs.append(dict(base, before=[rw_hook(path=request_path(base))], rewrite=dict(path='/v1' + request_path(base))))
+        cs.append(dict(base, before=[OK_HOOK, rw_hook(path=request_path(base))], after=[OK_HOOK], rewrite=dict(path='/other')))
+        cs.append(dict(base, before=[rw_hook(method='GET')], rewrite=dict(method='POST')))
+    cs.append(dict(ret(hello, method='HEAD'), before=[rw_hook(method='HEAD')], rewrite=dict(method='GET')))
+    cs.append(dict(ret(hello, method='GET'), before=[rw_hook(method='GET')], rewrite=dict(method='HEAD')))
+    # header values of other types than str (the same number as int, float and bool)
+    for a, b in ((1.0, True), (True, 1), (0, False), (0.0, 0), (None, 'None'), (1e3, 1000)):
+        cs.append(ret(hello, routing=prog(dict(k='ret', o=hello), dict(m='set', n='X-Sample-Rate', v=a),
+                                          dict(m='set', n='X-Cache-Hit', v=b), dict(m='add', n='X-N', v=a),
+                                          dict(m='add', n='X-N', v=b))))
+        cs.append(ret(_resp(200, hello, headers=[('X-A', a), ('X-B', b)])))
     for st in (200, 404, 999, '299 Custom'):
         cs.append(dict(kind='respapi', status=st))
     for a in STATUS_ARGS:
